@@ -30,7 +30,7 @@ F = np.array([0.05, 0.1, 0.2])
 D = np.array([0.0, 90.0, 180.0, 270.0])
 D_SHIFT = np.array([45.0, 135.0, 225.0, 315.0])     # same spacing
 D_HALF = np.array([0.0, 45.0, 90.0, 135.0])          # another spacing
-OBS = ["hs", "dm", "dspr", "tm01", "oned", "momd", "smooth", "attrs"]
+OBS = ["hs", "dm", "dspr", "tm01", "oned", "momd", "smooth", "attrs", "tableattrs"]
 STEPS = ["A", "E", "D", "H", "U", "R", "T"]
 
 
@@ -49,6 +49,13 @@ def _observe(env, obj, what):
     if what == "attrs":
         r = sp.hs()
         return [], (r.name, dict(r.attrs))
+    if what == "tableattrs":
+        # a dataset that happens to hold a variable named like a statistic without an entry in attributes.yml
+        from wavespectra.core.utils import smooth_spec
+        cur = obj.efth if isinstance(obj, xr.Dataset) else obj
+        ds2 = xr.Dataset({"efth": cur, "crsd": (("freq",), np.ones(cur.sizes["freq"]), {"note": "caller"})})
+        r = smooth_spec(ds2, 1, 1)
+        return [], ("crsd", dict(r["crsd"].attrs))
     r = getattr(sp, what)(3, 1) if what == "smooth" else getattr(sp, what)()
     return [np.asarray(r.values)], (r.name if what != "smooth" else None)
 
@@ -76,6 +83,7 @@ def _step(env, obj, step, n, kind):
         except ValueError:
             pass
         obj.spec._standard_name("no_such_variable") if kind == "da" else obj.efth.spec._units("no_such_variable")
+        obj.spec.crsd()   # a public statistic without an entry in the attribute table
     elif step == "R":
         from vt.refs import native
         from wavespectra.input.ww3 import from_ww3
@@ -92,6 +100,18 @@ class _Plain:
         return np.random.default_rng(1).random(shape)
 
 
+def _reset_table():
+    """every history starts from the state of a fresh process: reload the global attribute table from its file."""
+    import os
+    import yaml
+    from wavespectra.core import attributes as A
+    with open(os.path.join(A.HERE, "attributes.yml")) as stream:
+        pristine = A.AttrDict(yaml.load(stream, yaml.SafeLoader))
+    dict.clear(A.attrs)
+    for k in pristine:
+        dict.__setitem__(A.attrs, k, pristine[k])
+
+
 def _histories(maxlen):
     out = []
     for n in range(1, maxlen + 1):
@@ -103,16 +123,21 @@ def _histories(maxlen):
          thorough=[dict(kind=k, hist=h) for k in ("da", "ds") for h in _histories(3) if len(h) == 3 and ("E" in h or "D" in h or "H" in h or "U" in h)], max_paths=500, obl_timeout=8000, witnesses=2)
 def history(env, kind, hist):
     """after the history, every observed operation equals the one on a fresh object with the same contents."""
+    _reset_table()
     vals = env.array("E0", (len(F), len(D)), lo=0.0)
     env.assume(total(vals) > 0)
     da = xr.DataArray(vals, dims=("freq", "dir"), coords={"freq": F, "dir": D}, name="efth")
     obj = da.to_dataset() if kind == "ds" else da
     obj.spec  # create the accessor before anything else (it is cached per object)
+    # process-wide state (attribute table): what a data-independent observation gives BEFORE the history
+    _, table_before = _observe(env, _fresh(obj), "tableattrs")
     for n, st in enumerate(hist):
         obj = _step(env, obj, st, n + 1, kind)
         cur = obj.efth if kind == "ds" else obj
         env.assume(total(np.asarray(cur.values)) > 0)
     fresh = _fresh(obj)
+    _, table_after = _observe(env, fresh, "tableattrs")
+    env.claim(table_before == table_after, "attributes given to a like-named variable do not depend on operations that ran earlier in the process (%s)" % hist, {"before": str(table_before), "after": str(table_after)})
     for what in OBS:
         with env.lazy_sqrt():
             got, meta1 = _observe(env, obj, what)
@@ -209,7 +234,7 @@ def _crosshair(tier="quick"):
             # replay the counterexample on the real class
             import re
             from wavespectra.core.attributes import AttrDict
-            m = re.search(r"lookup_does_not_insert\((.*)\)", bad[0])
+            m = re.search(r"lookup_does_not_insert\((.*?)\)\s*(?:\(which|$)", bad[0])
             reproduced = False
             call = m.group(1) if m else ""
             try:
